@@ -173,6 +173,9 @@ def run(ctx):
             ok = not any(n in reach for n in nexts) and not any(b2 in reach for b2, _ in fw)
         ctx.ob("C02.P.map-key-remembered", f.key, "seen-set separate from the result map, updated on every path", ok,
                "a repeated key must be reported even when its earlier occurrence had a rejected value: the key has to be recorded in a seen-set on every path, not only when the value was inserted")
+    # every leaf carries its outer-to-inner location path: construction and hand-down of paths (shared with C04)
+    from .C04 import location_rules
+    location_rules(ctx, "C02.loc")
     # bundling keeps the vector
     f = ctx.fn("darling_core::error::Error::multiple")
     if f:
